@@ -57,6 +57,17 @@ TIERS = {
 }
 
 
+def tlc_retry(*a, **kw):
+    """vlib.tlc, retried when TLC lost its (shared, sometimes cleaned) metadir or was starved by the machine."""
+    for attempt in range(3):
+        res = vlib.tlc(*a, **kw)
+        lost = any("writing the disk" in e or "No such file" in e for e in res["errors"] + res["raw_tail"][-30:])
+        if not lost:
+            return res
+        vlib.log(f"TLC lost its metadir (attempt {attempt + 1}); retrying")
+    return res
+
+
 def write_cfg(path, sc, invariants, deviations="{}"):
     a, v, e = sc["menus"]
     with open(path, "w") as f:
@@ -94,7 +105,7 @@ def gen_offers(ck, sc, tag):
     write_cfg(cfg, sc, "EmitOffer " + SANITY)
     # sc["sim"] = N > 0: the model draws N seeded random behaviours (RandomElement) instead of enumerating;
     # (TLC's own -simulate evaluates invariants on every successor, i.e. would print whole neighbourhoods)
-    res = vlib.tlc("MC_Answer", os.path.basename(cfg), tags=("OFFER",), sinks={"OFFER": out}, timeout=3000,
+    res = tlc_retry("MC_Answer", os.path.basename(cfg), tags=("OFFER",), sinks={"OFFER": out}, timeout=3000,
                    workers=1, heap="8g", tag=f"MC_Answer_{tag}")
     os.remove(cfg)
     vlib.tlc_ok(res, sc["label"])
@@ -137,7 +148,7 @@ def validate(ck, records, tag, label):
         with open(slim, "w") as g:
             g.write("\n".join(chunk) + "\n")
         verd = os.path.join(ck.dir, f"verdicts_{tag}.ndjson")
-        res = vlib.tlc("Trace_Answer", "Trace_Answer.cfg", tags=("VERDICT",), sinks={"VERDICT": verd}, workers=1,
+        res = tlc_retry("Trace_Answer", "Trace_Answer.cfg", tags=("VERDICT",), sinks={"VERDICT": verd}, workers=1,
                        timeout=3000, env={"TRACE": slim}, tag=f"Trace_Answer_{tag}", seed_arg=False, heap="8g")
         vlib.tlc_ok(res, "trace " + label)
         ck.add_tlc(res, f"{label}: Trace_Answer")
@@ -360,7 +371,7 @@ def selftest():
     sc = scen("selftest", 1, SMALL, Compats=("Standard",), Pres=("none",), Negs=("first",), Modes=("WebRtc",))
     cfg = os.path.join(vlib.SPEC, "MC_Answer_selftest.gen.cfg")
     write_cfg(cfg, sc, SANITY, deviations='{"AnswerLocalList"}')
-    res = vlib.tlc("MC_Answer", os.path.basename(cfg), timeout=300, workers=2, tag="MC_Answer_selftest")
+    res = tlc_retry("MC_Answer", os.path.basename(cfg), timeout=300, workers=2, tag="MC_Answer_selftest")
     os.remove(cfg)
     hit = any("ReferenceValid" in l and "violated" in l for l in res["errors"] + res["raw_tail"])
     print(f"selftest: Deviations={{AnswerLocalList}} violates ReferenceValid: {hit}")
